@@ -90,10 +90,16 @@ func princString(p interface{}) string {
 	return fmt.Sprintf("%#v", p)
 }
 
-// sameResult: the authenticator must hand back the callback's own principal and error, nothing else.
+// sameResult: the authenticator must hand back the callback's own error and never a principal other than the
+// callback's. Tolerance: when the callback returns a principal together with an error, withholding the principal
+// (nil) is accepted as well - "no principal" is not "another principal", and the statement does not oblige an
+// authenticator to pass a principal along with a rejection.
 func sameResult(gotP interface{}, gotE error, kind string) bool {
 	wantP, wantE := cbResult(kind)
-	return gotP == wantP && gotE == wantE
+	if gotE != wantE {
+		return false
+	}
+	return gotP == wantP || wantE != nil && gotP == nil
 }
 
 // Transport --------------------------------------------------------------------------------------------
@@ -585,7 +591,11 @@ func CheckDefault(c DefaultCase) *kit.Violation {
 	var authz []string
 	calls := 0
 	basic := security.BasicAuth(func(u, p string) (interface{}, error) { calls++; got.Basic = []string{u, p}; return princAccepted, nil })
-	bearer := security.BearerAuth("oauth", func(tok string, _ []string) (interface{}, error) { calls++; got.Bearer = tok; return princAccepted, nil })
+	bearer := security.BearerAuth("oauth", func(tok string, _ []string) (interface{}, error) {
+		calls++
+		got.Bearer = tok
+		return princAccepted, nil
+	})
 	kh := security.APIKeyAuth(keyHeader, "header", func(tok string) (interface{}, error) { calls++; got.KeyHeader = tok; return princAccepted, nil })
 	kq := security.APIKeyAuth(keyQuery, "query", func(tok string) (interface{}, error) { calls++; got.KeyQuery = tok; return princAccepted, nil })
 
@@ -601,9 +611,12 @@ func CheckDefault(c DefaultCase) *kit.Violation {
 	applied := map[string]bool{}
 	if v := exchange(op, c.Default.writer(), func(r *http.Request) {
 		authz = r.Header.Values("Authorization")
-		for name, a := range map[string]runtime.Authenticator{"basic": basic, "bearer": bearer, "key-header": kh, "key-query": kq} {
-			ok, _, _ := a.Authenticate(&security.ScopedAuthRequest{Request: r})
-			applied[name] = ok
+		for _, na := range []struct {
+			name string
+			a    runtime.Authenticator
+		}{{"basic", basic}, {"bearer", bearer}, {"key-header", kh}, {"key-query", kq}} {
+			ok, _, _ := na.a.Authenticate(&security.ScopedAuthRequest{Request: r})
+			applied[na.name] = ok
 		}
 	}); v != nil {
 		return v
@@ -637,7 +650,8 @@ func CheckDefault(c DefaultCase) *kit.Violation {
 	if wantAuthz != "" && (len(authz) != 1 || authz[0] != wantAuthz) {
 		return kit.Failf("%s: the Authorization header set by the parameter writer must arrive untouched, the server saw %q", what, authz)
 	}
-	for name, ok := range applied {
+	for _, name := range []string{"basic", "bearer", "key-header", "key-query"} {
+		ok := applied[name]
 		has := map[string]bool{"basic": want.Basic != nil, "bearer": want.Bearer != "", "key-header": want.KeyHeader != "", "key-query": want.KeyQuery != ""}[name]
 		if c.Op != nil && c.Preset != "" && c.Op.writesAuthorization() && (name == "basic" || name == "bearer") {
 			continue
